@@ -589,10 +589,14 @@ def _printed_tuple(prog: Program, col: Collector, refs: Refs):
                         for x in ast.walk(st.value):
                             if isinstance(x, ast.JoinedStr) and x.values and isinstance(x.values[-1], ast.Constant) and str(x.values[-1].value).rstrip().endswith(","):
                                 own = True
-        col.check(comma_in_template or own, f"{ac.fq}::tuple rendering",
-                  "the call template ends its argument list with a comma: a one-component tuple prints as `(v,)`",
-                  f"the tuple constructor is printed as the empty string, so a tuple is rendered by the parentheses of the call template `{norm(js)}`, which puts no comma after "
-                  "the arguments: a one-component Tuple prints as `(v4)`, i.e. the bare value", ac.loc(js))
+        if own:
+            col.ok(f"{ac.fq}::tuple rendering", "every printed argument carries its own comma: `()`, `(v,)` and `(v, w,)` are tuples", ac.loc(js))
+        elif comma_in_template:
+            col.violation(f"{ac.fq}::tuple rendering", f"the tuple constructor is printed as the empty string and the call template `{norm(js)}` puts ONE comma after the joined arguments: "
+                          "with no arguments it prints `(,)`, which is not Python (the source of a program containing the empty Tuple does not compile)", ac.loc(js))
+        else:
+            col.violation(f"{ac.fq}::tuple rendering", f"the tuple constructor is printed as the empty string, so a tuple is rendered by the parentheses of the call template `{norm(js)}`, "
+                          "which puts no comma after the arguments: a one-component Tuple prints as `(v4)`, i.e. the bare value", ac.loc(js))
 
 
 def _trace_record(prog: Program, col: Collector, refs: Refs):
